@@ -89,8 +89,9 @@ def run(prog, R):
     R.explanation = ("Literal typing table (each literal constructor's type vs its literal class), identities (cast has its target type; identifier pairs symbol and type of one "
                      "lookup; measurement bit shape), arithmetic operands are used unwrapped only when their type equals the promoted type and are otherwise wrapped in a cast to it, "
                      "and a must-pass-through rule on every path of declaration-with-initializer and assignment: equal up to constness, or an explicit cast to exactly the target "
-                     "type, or a type diagnostic.")
-    R.not_decided = ["the full (declared type x initializer type x literal/const) decision table as behaviour over programs", "values (negative literal to unsigned beyond the sign flag)"]
+                     "type, or a type diagnostic; plus the full decision tables of both checks: the translator functions evaluated with the type functions inlined over every "
+                     "(target type x value type x value form) row of the abstract type domain (constructor x width none/some x const), with the clauses justified / downward-diagnosed / narrowing-diagnosed per row.")
+    R.not_decided = ["typing of arbitrary expression forms as initializer (the decision tables abstract the value to literal / non-literal with its type)", "values (negative literal to unsigned beyond the sign flag)", "array types"]
     R.assumptions = ["C20 tables (checked by C20)", "rustc MIR; path enumerator"]
     K_T, K_F = ("adt", T + "IsConst::True", ()), ("adt", T + "IsConst::False", ())
     # ---- C08.1 literal typing
@@ -249,6 +250,9 @@ def run(prog, R):
         R.ob("C08.3-operands-wrapped", "operand unwrapped iff its type == promoted type, else Cast(operand, promoted); result type = promoted", not bad and n == 4, nw.at, f"{n} arithmetic paths; {bad[:3]}")
     R.premises(prog, "C08.4-premise", ["C20:C20."],
                "the common type of an arithmetic expression is promote_types(..) and the justification rule accepts `equal_up_to_constness(target, value)` and `can_cast_literal` as written: their decision tables must be the ones C20 checks")
+    import c08_table
+    c08_table.check(prog, R)
+    c08_table.check_assign(prog, R)
     # ---- C08.4 justification on all paths
     cd = R.anchor(prog, S2S + "classical_declaration_statement_to_asg_stmt")
     if cd:
